@@ -13,6 +13,7 @@ RULE = ("every op form of the tensor catalogue and the nn catalogue (functional 
         "whole graph is walked: every .grad must have its tensor's shape and dtype; stateful layers are run through train -> eval histories and their outputs, running statistics and gradients must keep the layer dtype. distinct key = (op, form, argclass, shape class, dtype, g "
         "dtype); non-trivial = the case has broadcasting, a 0-d result, a scalar operand or a g of the other dtype")
 RULE += (' Added after the seeded rounds: float32 gradients compared with the float64 gradients of the same function (2 % of the max-norm); optimizers in the stateful dtype histories; reset paths after the layer was used at float32 and then switched to float64; non-contiguous operands and saturating values.')
+RULE += (" Round 6 / reach monitor: operands of different floating dtypes in one op: every operand's gradient keeps that operand's dtype and shape (fresh leaves).")
 ASSUMPTIONS = ["single precision agreement = |y32 - y64| <= (64 + 8*log2 n) * eps32 * max(|y64|, y64(|x|), max|x|) (forward-error bound)",
                "for mixed-dtype operands (float64 input through float32 default layer parameters) only the gradient shape/dtype contract is asserted"]
 SHARD_TIMEOUT = {"quick": 900, "thorough": 3600}
